@@ -96,6 +96,7 @@ QUICK = [
     ("alt", (rng("a", "c"), lit("-"), lit("]"), lit("^"))),
     ("alt", (lit("["), lit("\\"), rng("x", "z"), rng("y", "~"))),
     ("alt", (B("ASCII_DIGIT"), lit("a"), ("ci", "s"))),
+    ("alt", (rng("a", "z"), rng("c", "e"), rng("0", "9"), rng("5", "7"))),   # ranges strictly inside earlier ones
 ]
 QUICK_EXTRA_THOROUGH = [rng("\uffff", "\U00010000"), rng("K", "K"), lit("]"), B("ASCII_ALPHA"), rng("\x7f", "\x80")]
 
@@ -249,6 +250,36 @@ def _escapes(payload):
                 if not (ok and ok2) and len(fails) < 50:
                     fails.append({"kind": "escape-denotes-other-code-point", "mode": "IU", "expr": s + (" (char literal)" if name[0] == "c" else ""), "cp": cp})
     if lo == 0:
+        # sequences of escapes: every string of 1-3 pieces (an escape next to a character that would itself form an
+        # escape with a preceding backslash must be decoded left to right, once)
+        pieces = {"\\n": "\n", "\\r": "\r", "\\t": "\t", "\\\\": "\\", '\\"': '"', "\\'": "'", "\\0": "\0", "n": "n", "r": "r", "t": "t", "0": "0", "x": "x", "u": "u"}
+        import itertools as _it
+
+        combos = [c for k in (1, 2, 3) for c in _it.product(pieces, repeat=k)]
+        for i in range(0, len(combos), 512):
+            batch = combos[i:i + 512]
+            g = "\n".join(f'q{j} = {{ "{"".join(c)}" ~ EOI }}' for j, c in enumerate(batch))
+            try:
+                p = Parser.from_grammar(g, optimizer=None)
+            except Exception as exc:  # noqa: BLE001
+                fails.append({"kind": f"rejected:{type(exc).__name__}", "mode": "IU", "expr": "escape sequences batch", "cp": 0})
+                continue
+            for j, c in enumerate(batch):
+                want = "".join(pieces[x] for x in c)
+                stats["evaluations"] += 2
+                try:
+                    p.parse(f"q{j}", want)
+                    ok = True
+                except PestParsingError:
+                    ok = False
+                other = want[:-1] + chr(ord(want[-1]) ^ 1)
+                try:
+                    p.parse(f"q{j}", other)
+                    ok2 = False
+                except PestParsingError:
+                    ok2 = True
+                if not (ok and ok2) and len(fails) < 50:
+                    fails.append({"kind": "escape-sequence-decoded-wrongly", "mode": "IU", "expr": '"' + "".join(c) + '"', "cp": ord(want[0])})
         simple = {"\\n": 10, "\\r": 13, "\\t": 9, "\\\\": 92, '\\"': 34, "\\'": 39, "\\0": 0}
         for s, cp in simple.items():
             for g, rule in ((f'r = {{ "{s}" ~ EOI }}', "string"), (f"r = {{ '{s}'..'{s}' ~ EOI }}", "char")):
@@ -321,7 +352,7 @@ def run(tier: str) -> int:
         "rule": "for every expression X of the family, a one-rule grammar r = { X } is built in all four modes and parse('r', chr(cp)) is called for EVERY code point U+0000..U+10FFFF (surrogates included); "
                 "membership is computed from the definition with integer comparisons (ranges inclusive and case sensitive, literals exact, choices = union, ASCII_*/NEWLINE/ANY from pest's book; case-insensitive literals judged on ASCII input only); "
                 "built-in Unicode property rules must give the same answer in all four modes. Escapes: every \\xHH (both digit cases) and every \\u{H..} value in the stated digit-count forms, in string and character literals, "
-                "must match exactly the intended character (and not its neighbour). distinct_nontrivial = accepted (expression, code point) points in mode IU",
+                "must match exactly the intended character (and not its neighbour); every string literal made of 1-3 pieces from {\\n \\r \\t \\\\ \\\" \\' \\0 n r t 0 x u} must decode piecewise. distinct_nontrivial = accepted (expression, code point) points in mode IU",
         "samples": [{"expr": text_of(e)} for e in common.pick_samples(all_exprs, 5)],
         "exhaustive": True,
         "expressions": len(exprs),
